@@ -687,6 +687,9 @@ class _Frame:
             return to_q(v)
         if isinstance(v, complex):
             return Poly.const(to_q(v.real)) + IMAG * to_q(v.imag)  # the formal imaginary unit (I^2 = -1 on splitting)
+        sl = getattr(self.I, "size_literal", None)
+        if sl is not None and type(v) is int and not getattr(self, "_in_literal", 0):
+            return sl(v)
         return v
 
     def e_Name(self, n):
@@ -782,6 +785,11 @@ class _Frame:
         raise self.bad("unary operator", n)
 
     def e_BinOp(self, n):
+        sl = getattr(self.I, "size_literal", None)
+        if sl is not None and _literal_only(n):
+            # a magnitude written in the source (block / buffer / batch size): re-interpreted at another scale
+            v = self.binop(type(n.op), self.ev(n.left), self.ev(n.right), n)
+            return sl(v) if type(v) is int else v
         return self.binop(type(n.op), self.ev(n.left), self.ev(n.right), n)
 
     _DUNDER = {ast.Add: "add", ast.Sub: "sub", ast.Mult: "mul", ast.Div: "truediv", ast.MatMult: "matmul", ast.Pow: "pow"}
@@ -840,6 +848,10 @@ class _Frame:
                 return a // b
             if op is ast.Mod:
                 return a % b
+            if op in (ast.LShift, ast.RShift) and type(a) is int and type(b) is int:
+                if b < 0:
+                    raise XRaise("ValueError", "negative shift count")
+                return a << b if op is ast.LShift else a >> b
             if op in (ast.BitAnd, ast.BitOr):
                 comb = (lambda x, y: x and y) if op is ast.BitAnd else (lambda x, y: x or y)
 
@@ -1086,6 +1098,8 @@ class _Frame:
             raise XRaise("AttributeError", f"'{type(obj).__name__}' object has no attribute '{attr}'")
         if isinstance(obj, (Poly, Rat, Lin, MQ, Fraction)) and attr in ("real",):
             return obj
+        if attr in getattr(type(obj), "_xeval_attrs", ()):
+            return getattr(obj, attr)
         if isinstance(obj, Opaque):
             return Opaque(f"{obj.tag}.{attr}")
         if isinstance(obj, Sink):
@@ -1247,6 +1261,17 @@ class _Frame:
             raise self.bad(f"np.{path} failed: {type(e).__name__}: {e}", n)
 
 
+def _literal_only(n):
+    """An arithmetic expression made of integer literals only (1 << 22, 4 * 1024 * 1024, 2**20)."""
+    if isinstance(n, ast.Constant):
+        return type(n.value) is int
+    if isinstance(n, ast.BinOp):
+        return _literal_only(n.left) and _literal_only(n.right)
+    if isinstance(n, ast.UnaryOp) and isinstance(n.op, (ast.USub, ast.UAdd)):
+        return _literal_only(n.operand)
+    return False
+
+
 class _Bound:
     def __init__(self, interp, finfo, selfobj, static=False):
         self.I, self.finfo, self.selfobj, self.static = interp, finfo, selfobj, static
@@ -1339,6 +1364,30 @@ def _kind_of(dtype):
     if dtype is complex or (isinstance(dtype, _NpAttr) and dtype.path.startswith("complex")) or dtype == "c":
         return "c"
     return None
+
+
+def _np_result_type(*args):
+    """np.result_type as far as the kind: complex > float > integer; an operand of unknown kind leaves it unknown"""
+    kinds = []
+    for a in args:
+        if isinstance(a, XArray):
+            if any(type(x).__name__ == "Poly" and "__I__" in x.vars() for x in a.data):
+                kinds.append("c")
+            else:
+                kinds.append(a.dtype)
+        elif isinstance(a, bool):
+            kinds.append("i")
+        elif isinstance(a, int):
+            kinds.append("i")
+        elif isinstance(a, (Fraction, float)):
+            kinds.append("f")
+        else:
+            kinds.append(_kind_of(a))
+    if "c" in kinds:
+        return _DType("c")
+    if any(k not in ("i", "f") for k in kinds):
+        return _DType(None)
+    return _DType("f" if "f" in kinds else "i")
 
 
 def _all_py_ints(o):
@@ -1695,6 +1744,7 @@ _NP_FUNCS = {
     "sqrt": _np_sqrt,
     "zeros": _np_zeros,
     "empty": _np_zeros,
+    "result_type": _np_result_type,
     "ones": _np_ones,
     "eye": _np_eye,
     "identity": _np_eye,
